@@ -90,6 +90,18 @@ def impl_oracle(c):
         return ("value-and-error" if "together" in o["note"] else "decoder"), "%s: %s" % (op, o["note"])
     if op in ("tojson", "series", "shell") and o.get("note"):
         return "value-and-error", "%s: %s" % (op, o["note"])
+    # what the caller sees of the error list: never empty on failure, never a
+    # result with errors, never more than the cap of lexing.ErrorList (the
+    # strings strconv.Unquote rejects in strtoken.Parse are a plain slice)
+    if op in ("tojson", "series", "tseries", "shell", "stream"):
+        es = o.get("errs") or []
+        failed = (not o.get("ok")) if op != "stream" else o.get("fin", 0) != 0
+        if failed and not es:
+            return "neither", "%s returned neither a result nor an error" % op
+        if not failed and es:
+            return "value-and-error", "%s returned a result and errors %s" % (op, es[:3])
+        if len(es) > 20 and not (op == "shell" and set(es) == {"shellarg.invalidStr"}):
+            return "cap", "%s returned %d errors, more than the cap of 20" % (op, len(es))
     if op == "tojson" and o.get("ok") and o.get("out") is None and not o.get("outhex"):
         return "neither", "ToJSON returned neither output nor error"
     if c["stream"] in ("prefix", "cut", "corpus") and op in ("unmarshal", "series"):
